@@ -647,15 +647,13 @@ theorem inv_getExpire (st : St) (hinv : Inv st) (i : Nat) (k : String) : Inv (qs
 
 /-! ### every command of the model -/
 
-/-- side conditions on the ARGUMENTS of a command — no command of the model is excluded:
-* what is written can be read back (the serializer decodes its own output, C09; a lock token is digits or such a payload:
-  the read path hands a raw token back as "nothing", so a raw token in a local copy could not agree with any read);
-* `expire` is given a positive time (`expire(k, 0)` makes the server delete the key while the local copy keeps it). -/
+/-- side conditions on the ARGUMENTS of a command — no command of the model is excluded: what is written can be read
+back (the serializer decodes its own output, C09; a lock token is digits or such a payload: the read path hands a raw token
+back as "nothing", so a raw token in a local copy could not agree with any read). -/
 def WF (isEnc : String → Bool) : Op → Prop
   | .set _ _ v _ _ => DecV isEnc v
   | .setMany _ kvs _ => ∀ kv ∈ kvs, DecV isEnc kv.2
   | .setLock _ _ tok _ => TokOK isEnc tok
-  | .expire _ _ ms => 0 < ms
   | _ => True
 
 theorem srvMulti_isEnc (cs : List Cmd) : ∀ st : St, (srvMulti st cs).isEnc = st.isEnc := by
@@ -733,7 +731,7 @@ theorem inv2_qstep (st : St) (h : Inv2 st) (op : Op) (hc : WF st.isEnc op) : Inv
     simp only [qstep, deliverAll, step]
     split <;> exact domOK_exec _ _ rfl hdom
   | expire i k ms =>
-    refine ⟨inv_expire st hinv i k ms hc, ?_⟩
+    refine ⟨inv_expire st hinv i k ms, ?_⟩
     simp only [qstep, deliverAll, step]
     exact domOK_exec _ _ rfl hdom
   | clear i =>
